@@ -108,3 +108,7 @@ mod tests {
         // we have access to an ipv6 network.
     }
 }
+
+#[cfg(feature = "pendulum_project_ntpd_rs_verif")]
+#[path = "/verif/hooks/ntp-proto/identifiers.rs"]
+pub mod verif_hooks;
